@@ -57,7 +57,7 @@ theorem minv_init (O : Orders) (w : World) (fp fq : Int) (fc : List (Nat × Int)
     MInv O w.log (seqKeys fc) (initOf w.p0 w.q0 w.c0) (initOf fp fq fc) (Mgr.init w fp fq fc) := by
   have hrep : ∀ k, replay O w.log (initOf fp fq fc) (Mgr.init w fp fq fc).ops k = ({ state := initOf fp fq fc k }, []) := by
     intro k; rfl
-  refine ⟨⟨rfl, ?_, ?_, ?_, ?_, ?_⟩, ?_, ?_, ?_, ?_, rfl⟩
+  refine ⟨⟨rfl, ?_, ?_, ?_, ?_, ?_⟩, ?_, ?_, ?_, ?_, fun cont hc => by simp [Mgr.init] at hc⟩
   · intro k hk
     rw [hrep, init_getBox]
     rcases (mem_seqKeys fc k).1 hk with h | h | ⟨c, hc, h⟩
